@@ -3,7 +3,7 @@
 (* C07 / C13 - the document family.  One SCEN line per abstract document   *)
 (*   [id, strategy, rendering, ops : Seq([oid, method, path, tags, keys,   *)
 (*    opid, idshape, kind])]                                               *)
-(* <= 4 operations over <= 3 paths.  Dimensions:                           *)
+(* <= 4 operations over <= 3 paths (stratum V: 8 on one).  Dimensions:                              *)
 (*  tags per operation (TL): none, one, two (both orders), spelling        *)
 (*     variants of one tag (`user-accounts`, `User Accounts`,              *)
 (*     `userAccounts`, `useraccounts`, `a`/`A`) alone, second and first of *)
@@ -21,6 +21,15 @@
 (*     @overload stubs), sse, ndjson, octet (streaming = async generator), *)
 (*     manyopt (6 optional parameters), longsig (8 parameters with long    *)
 (*     names, header + query, one required).                               *)
+(*  P  punctuation variants of one tag (`Billing/Invoices` vs              *)
+(*     `billing-invoices`, `v1.users` / `v1-users`, `R&D` / `r-d`,         *)
+(*     `ops:admin` / `ops admin`): every ordered pair, triples             *)
+(*  V  one path item carrying ALL eight OpenAPI 3 verbs (get, put, post,   *)
+(*     delete, options, head, patch, trace) x tag lists x id shapes x      *)
+(*     strategies                                                          *)
+(* kinds also: mixed = 200 JSON + 206 application/octet-stream (the        *)
+(* primary response is not streaming: client, Protocol and mock are        *)
+(* coroutines); every `multi` operation has its OWN json body model.       *)
 (* The product is far too large; the family is a deterministic STRATIFIED  *)
 (* selection (no randomness), exhaustive inside each stratum:              *)
 (*  A  one operation: every tag list x id shapes x strategies              *)
@@ -44,34 +53,40 @@ VARIABLES sc, done
 TL == << <<>>, <<"a">>, <<"b">>, <<"a", "b">>, <<"b", "a">>,
          <<"user-accounts">>, <<"User Accounts">>, <<"userAccounts">>, <<"useraccounts">>,
          <<"a", "user-accounts">>, <<"User Accounts", "b">>,
-         <<"request">>, <<"close">>, <<"config">>, <<"a", "request">>, <<"a", "A">> >>
-NT == Len(TL)
+         <<"request">>, <<"close">>, <<"config">>, <<"a", "request">>, <<"a", "A">>,
+         \* 17.. : spellings that differ by punctuation other than space / hyphen / underscore (stratum P)
+         <<"Billing/Invoices">>, <<"billing-invoices">>, <<"v1.users">>, <<"v1-users">>, <<"R&D">>, <<"r-d">>, <<"ops:admin">>, <<"ops admin">> >>
+NT == 16     \* the tag lists the rotating strata A-D draw from
+PT == 17..24
 
 Paths == <<"/items", "/items/{id}", "/api/v1/users">>
 \* (method, path index) of operation 1..4 under a slot pattern
 Slots == << << <<"GET", 1>>, <<"POST", 1>>, <<"GET", 2>>, <<"DELETE", 2>> >>,
             << <<"GET", 1>>, <<"GET", 2>>, <<"GET", 3>>, <<"POST", 3>> >>,
-            << <<"POST", 1>>, <<"PUT", 2>>, <<"GET", 3>>, <<"GET", 1>> >> >>
-NS == Len(Slots)
+            << <<"POST", 1>>, <<"PUT", 2>>, <<"GET", 3>>, <<"GET", 1>> >>,
+            \* pattern 4 (stratum V only): one path item with all eight verbs of OpenAPI 3
+            << <<"GET", 1>>, <<"PUT", 1>>, <<"POST", 1>>, <<"DELETE", 1>>, <<"OPTIONS", 1>>, <<"HEAD", 1>>, <<"PATCH", 1>>, <<"TRACE", 1>> >> >>
+NS == 3      \* the patterns the rotating strata use
 Lower(m) == CASE m = "GET" -> "get" [] m = "POST" -> "post" [] m = "PUT" -> "put" [] m = "DELETE" -> "delete"
+              [] m = "OPTIONS" -> "options" [] m = "HEAD" -> "head" [] m = "PATCH" -> "patch" [] m = "TRACE" -> "trace"
 
 IdShapes == <<"absent", "unique", "dupsan", "presuffixed", "fastapi", "fastapiraw">>
 NI == Len(IdShapes)
 PathCollapsed == <<"items", "items_id", "api_v1_users">>     \* the form the project's tests use
 PathRaw == <<"_items", "_items__id_", "_api_v1_users">>        \* re.sub(r"\W", "_", path), what FastAPI itself produces
-FuncNames == <<"list_things", "make_thing", "read_thing", "drop_thing">>
+FuncNames == <<"list_things", "make_thing", "read_thing", "drop_thing", "probe_thing", "peek_thing", "amend_thing", "echo_thing">>
 OpId(shape, j, m, p) ==
   CASE shape = "absent" -> ""
-    [] shape = "unique" -> <<"listThings", "makeThing", "readThing", "dropThing">>[j]
+    [] shape = "unique" -> <<"listThings", "makeThing", "readThing", "dropThing", "probeThing", "peekThing", "amendThing", "echoThing">>[j]
     [] shape = "dupsan" -> <<"getUser", "get_user", "get-user", "GetUser">>[j]
     [] shape = "presuffixed" -> <<"get", "Get", "get_2", "GET">>[j]
     [] shape = "fastapi" -> FuncNames[j] \o "_" \o PathCollapsed[p] \o "_" \o Lower(m)
     [] shape = "fastapiraw" -> FuncNames[j] \o PathRaw[p] \o "_" \o Lower(m)
 
-Kinds == <<"plain", "multi", "sse", "ndjson", "octet", "manyopt", "longsig">>
+Kinds == <<"plain", "multi", "sse", "ndjson", "octet", "manyopt", "longsig", "mixed">>
 NK == Len(Kinds)
 \* a request body needs POST / PUT
-KindFor(m, k) == IF Kinds[k] = "multi" /\ m \notin {"POST", "PUT"} THEN "manyopt" ELSE Kinds[k]
+KindFor(m, k) == IF Kinds[k] = "multi" /\ m \notin {"POST", "PUT", "PATCH"} THEN "manyopt" ELSE Kinds[k]
 
 Strategies == <<"operationId", "clean", "path">>
 Rend(x) == IF x % 2 = 0 THEN "json" ELSE "yaml"
@@ -142,9 +157,25 @@ DocH(u) ==
   MkDoc("h" \o S(n) \o "x" \o S(u[2]) \o S(u[3]) \o S(u[4]) \o S(u[5]) \o "x" \o S(s) \o "x" \o S(g), Rot(w, NS), SubSeq(<<u[2], u[3], u[4], u[5]>>, 1, n),
         [j \in 1..n |-> 1], s, g, Rend(w + g))
 
+\* punctuation variants: every tag alone, every ordered pair, triples with (t1+t2+t3) % m = 0, and a pair behind `a`
+IdxP(mod) ==
+  {I("p", <<t, t, t, 1, g>>) : t \in PT, g \in 1..3}
+  \cup {I("p", <<v[1], v[2], v[2], 2, Rot(v[1] + v[2], 3)>>) : v \in PT \X PT}
+  \cup {I("p", <<v[1], v[2], v[3], 3, Rot(v[1] + v[3], 3)>>) : v \in {v \in PT \X PT \X PT : (v[1] + v[2] + v[3]) % mod = 0 /\ Cardinality({v[1], v[2], v[3]}) > 1}}
+DocP(u) ==
+  LET n == u[4]  g == u[5]  w == u[1] + u[2] + u[3] IN
+  MkDoc("p" \o S(u[1]) \o "x" \o S(u[2]) \o "x" \o S(u[3]) \o "x" \o S(n) \o "x" \o S(g), Rot(w, NS), SubSeq(<<u[1], u[2], u[3]>>, 1, n),
+        [j \in 1..n |-> 1], Rot(w, 2), g, Rend(w + g))
+
+\* all eight verbs on one path item
+IdxV(tls, shapes) == {I("v", <<t, s, g>>) : t \in tls, s \in shapes, g \in 1..3}
+DocV(u) ==
+  LET t == u[1]  s == u[2]  g == u[3] IN
+  MkDoc("v" \o S(t) \o "x" \o S(s) \o "x" \o S(g), 4, [j \in 1..8 |-> t], [j \in 1..8 |-> IF (j + t) % 4 = 0 THEN 6 ELSE 1], s, g, Rend(t + s + g))
+
 Plain(i) ==
   CASE i.f = "a" -> DocA(i.x) [] i.f = "b" -> DocB(i.x) [] i.f = "c" -> DocC(i.x) [] i.f = "d" -> DocD(i.x)
-    [] i.f = "e" -> DocE(i.x) [] i.f = "f" -> DocF2(i.x) [] i.f = "g" -> DocF3(i.x) [] i.f = "h" -> DocH(i.x)
+    [] i.f = "e" -> DocE(i.x) [] i.f = "f" -> DocF2(i.x) [] i.f = "g" -> DocF3(i.x) [] i.f = "h" -> DocH(i.x) [] i.f = "p" -> DocP(i.x) [] i.f = "v" -> DocV(i.x)
 Doc(i) == IF i.bare THEN [Plain(i) EXCEPT !.rendering = "yamlbare", !.id = "y" \o @] ELSE Plain(i)
 
 \* yamlbare: a slice of A and B rendered with unquoted status keys
@@ -153,8 +184,8 @@ IdxG(full) ==
   \cup {[i EXCEPT !.bare = TRUE] : i \in {i \in IdxB(1) : i.x[1] # i.x[2] /\ (i.x[1] + 3 * i.x[2]) % (IF full THEN 3 ELSE 16) = 0}}
 
 Family ==
-  CASE Tier = "quick"    -> IdxA(FALSE) \cup IdxB(1) \cup IdxC(16, 1) \cup IdxD(2, 1) \cup IdxE({1}) \cup IdxF2({1, 3}) \cup IdxG(FALSE) \cup IdxH({3}, {1})
-    [] Tier = "thorough" -> IdxA(TRUE) \cup IdxB(6) \cup IdxC(2, 4) \cup IdxD(1, 12) \cup IdxE(1..NS) \cup IdxF2(1..NS) \cup IdxF3 \cup IdxG(TRUE) \cup IdxH({3, 4}, {1, 2})
+  CASE Tier = "quick"    -> IdxA(FALSE) \cup IdxB(1) \cup IdxC(16, 1) \cup IdxD(2, 1) \cup IdxE({1}) \cup IdxF2({1, 3}) \cup IdxG(FALSE) \cup IdxH({3}, {1}) \cup IdxP(4) \cup IdxV({1, 2, 4}, {1, 2, 5})
+    [] Tier = "thorough" -> IdxA(TRUE) \cup IdxB(6) \cup IdxC(2, 4) \cup IdxD(1, 12) \cup IdxE(1..NS) \cup IdxF2(1..NS) \cup IdxF3 \cup IdxG(TRUE) \cup IdxH({3, 4}, {1, 2}) \cup IdxP(1) \cup IdxV({1, 2, 4, 6, 12, 16, 17}, {1, 2, 5, 6})
 
 Init == sc \in Family /\ done = FALSE
 Emit == ~done /\ done' = TRUE /\ UNCHANGED sc /\ PrintT("SCEN " \o ToJson(Doc(sc)))
@@ -164,7 +195,7 @@ Spec == Init /\ [][Emit]_<<sc, done>>
 FamilyOK ==
   done =>
   LET d == Doc(sc) IN
-  /\ Len(d.ops) \in 1..4
+  /\ Len(d.ops) \in 1..8
   /\ \A i, j \in DOMAIN d.ops : i # j => <<d.ops[i].method, d.ops[i].path>> # <<d.ops[j].method, d.ops[j].path>>
   /\ \A i \in DOMAIN d.ops : Len(d.ops[i].keys) = Len(d.ops[i].tags)
 =============================================================================
